@@ -55,6 +55,14 @@ def make_routes(work, xml_path, second_xml=None):
     with open(xml_path, 'rb') as src, lzma.open(xz, 'wb') as dst:
         shutil.copyfileobj(src, dst)
     routes['xz'] = xz
+    # compressed files whose names do not say so (the download cache stores resources under hash names): the
+    # compression is recognised from the content
+    for label, comp, name in (('gz under a cache name', gz, '5f1e0c2a9b7d4e6f8a0b1c2d3e4f5a6b7c8d9e0f'),
+                              ('xz under a cache name', xz, '0a1b2c3d4e5f60718293a4b5c6d7e8f901234567'),
+                              ('gz named .xml', gz, 'r_compressed.xml')):
+        dst_ = os.path.join(work, name)
+        shutil.copy(comp, dst_)
+        routes[label] = dst_
     pkg = os.path.join(work, 'pkg')
     os.makedirs(pkg)
     shutil.copy(xml_path, os.path.join(pkg, 'lex.xml'))
